@@ -63,6 +63,9 @@ def episode(ctx, case) -> None:
     try:
         inst = ModelInstance(number_of_players=n, game_class=case["computer"], game_generator=case["generator"],
                              gap_function=case["gap"], seed=case["seed"], run_steps_limit=case["budget"], linear=True)
+        if case.get("scale", 1.0) != 1.0 or case.get("offset"):
+            from .c09 import Recorder
+            inst.game_generator_fn = Recorder(inst.game_generator_fn, case.get("scale", 1.0), case.get("offset", 0.0))
         lin = inst.get_env()
     except Exception as exc:
         ctx.violation("env-construction-raised", f"{type(exc).__name__}: {exc} ({case})", case)
@@ -86,6 +89,19 @@ def episode(ctx, case) -> None:
             if not mask.any() or lin.done:
                 ctx.count("episodes_to_done")
                 break
+            if case.get("direct_inner_steps") and rng.random() < 0.15:
+                # the underlying env is used directly in between (it is a public attribute): the wrapper must follow
+                im = [int(i) for i in np.nonzero(np.array(inner.action_masks()))[0]]
+                a = rng.choice(im)
+                inner.step(a)
+                if rng.random() < 0.5:
+                    inner.unstep(a)
+                ctx.count("direct_inner_env_moves")
+                observe(ctx, case, lin, n, explor, "after a direct move of the underlying env", lin.state)
+                mask = np.array(lin.action_masks(), dtype=bool)
+                if not mask.any() or lin.done:
+                    ctx.count("episodes_to_done")
+                    break
             k = rng.choice([int(i) for i in np.nonzero(mask)[0]])
             before = np.array(inner.incomplete_game.are_values_known(), dtype=bool)
             cands = [m for m in explor if popcount(m) == k and not before[m]]
@@ -131,7 +147,9 @@ def run(ctx) -> None:
         nexp = (1 << n) - n - 2
         episode(ctx, {"n": n, "generator": g, "computer": comp if n <= 5 else "superadditive_cached", "gap": rng.choice(list(GAP_FUNCTIONS)),
                       "seed": rng.randint(0, 10**6), "np_seed": (ctx.seed * 7919 + rng.randint(0, 2**31 - 1)) % (2**32),
-                      "budget": rng.choice([None, None, rng.randint(1, nexp)]), "episodes": rng.randint(1, 3)})
+                      "budget": rng.choice([None, None, rng.randint(1, nexp)]), "episodes": rng.randint(1, 3),
+                      "scale": rng.choice(sut.SCALES), "offset": rng.choice([0.0, 0.0, 0.0, -1e6]),
+                      "direct_inner_steps": rng.random() < 0.3})
         ctx.count(f"n{n}_envs")
 
 
